@@ -11,8 +11,7 @@
 (*                                                                         *)
 (* For every case TLC recomputes, from the grammar alone (CFG.tla) and     *)
 (* from the tables alone (LRTables!Run), what C08 allows, and prints one   *)
-(* JSON record per disagreement; the walk over the cases is the state      *)
-(* machine (variable i).  Clauses:                                         *)
+(* JSON record per disagreement (see Checked at the end).  Clauses:        *)
 (*                                                                         *)
 (*   GeneratorRaises        the generator returned no parser at all        *)
 (*   DriverConforms         Parser.parse did what the shift-reduce machine *)
@@ -27,8 +26,8 @@ EXTENDS LRTables, CFG, TLC, Json, IOUtils
 
 Cases == JsonDeserialize(IOEnv.CASES_FILE)
 
-VARIABLES i, stats
-vars == <<i, stats>>
+VARIABLE i
+vars == <<i>>
 
 ConflictFreeCase(c) == c.conflicts = <<>> /\ c.gen_exc = ""
 
@@ -52,25 +51,47 @@ SameOutcome(x, y) ==
 Brief(x) == [st |-> x.st, index |-> IF x.st = "err" THEN x.out.index ELSE 0]
 
 \* Disagreements of one run with the property, as a set of [clause, want, got] records.
+\*
+\* For a big grammar (c.cert, the Emboss grammar) the recognizer is only run where it is needed:
+\*   - an accepted string needs no recognizer: a valid derivation tree IS a proof that G derives it;
+\*   - for a rejected string it is enough to look at the prefix up to and including the token the
+\*     parser complained about: the report is right iff that prefix without its last token is
+\*     viable and with it is not (at the end marker: viable but not a sentence).  Only if that fails
+\*     is the whole string analysed, to say where the error should have been.
 RunMismatches(c, ap, full, red, r) ==
-    LET w    == r.w
-        free == ConflictFreeCase(c)
-        sets == IF free THEN EarleySets(red, w) ELSE <<>>
-        inL  == IF free THEN (IF ap THEN Complete(red, sets[Len(w) + 1]) ELSE DerivesP(full, w)) ELSE FALSE
-        fnv  == IF free THEN FirstNonViableFromSets(red, w, sets) ELSE 0
-        pred == Predicted(c, w)
-        rec  == Recorded(r)
+    LET w     == r.w
+        n     == Len(w)
+        free  == ConflictFreeCase(c)
+        plain == r.exc = ""
+        skipE == c.cert /\ plain /\ r.ok
+        u     == IF c.cert /\ plain /\ ~r.ok /\ r.idx < n THEN SubSeq(w, 1, r.idx + 1) ELSE w
+        sets  == IF free /\ ~skipE THEN EarleySets(red, u) ELSE <<>>
+        tree  == free /\ plain /\ r.ok /\ ValidTree(c.g, r.tree, w)
+        fnv   == IF free /\ ~skipE
+                 THEN LET f == FirstNonViableFromSets(red, u, sets)
+                      IN  IF Len(u) < n /\ f # r.idx THEN FirstNonViableP(red, w) ELSE f
+                 ELSE -1
+        inL   == IF ~free THEN FALSE
+                 ELSE IF skipE THEN tree
+                 ELSE IF Len(u) < n THEN fnv = -1
+                 ELSE IF ap THEN Complete(red, sets[n + 1]) ELSE DerivesP(full, w)
+        pred  == Predicted(c, w)
+        rec   == Recorded(r)
     IN  (IF ~SameOutcome(pred, rec)
          THEN {[clause |-> "DriverConforms", want |-> Brief(pred), got |-> Brief(rec)]} ELSE {})
         \cup
-        (IF free /\ (r.exc # "" \/ r.ok # inL)
+        (IF free /\ ~skipE /\ (~plain \/ r.ok # inL)
          THEN {[clause |-> "AcceptIffDerives", want |-> [derives |-> inL], got |-> [accepted |-> r.ok, exc |-> r.exc]]} ELSE {})
         \cup
-        (IF free /\ r.exc = "" /\ r.ok /\ ~ValidTree(c.g, r.tree, w)
+        (IF free /\ plain /\ r.ok /\ ~tree
          THEN {[clause |-> "TreeIsDerivation", want |-> [valid |-> TRUE], got |-> [valid |-> FALSE]]} ELSE {})
         \cup
-        (IF free /\ r.exc = "" /\ ~r.ok /\ ~inL /\ r.idx # fnv
+        (IF free /\ plain /\ ~r.ok /\ ~inL /\ r.idx # fnv
          THEN {[clause |-> "ErrorAtFirstNonViable", want |-> [index |-> fnv], got |-> [index |-> r.idx]]} ELSE {})
+        \cup
+        \* the generator reported no conflicts, yet this sentence has two derivation trees
+        (IF free /\ c.namb >= 0 /\ Len(w) <= c.namb /\ inL /\ AmbiguousSentence(c.g, w)
+         THEN {[clause |-> "AmbiguousImpliesConflicts", want |-> [conflicts |-> "some"], got |-> [conflicts |-> "none"]]} ELSE {})
 
 CaseMismatches(c) ==
     LET full == Full(c.g)
@@ -84,10 +105,6 @@ CaseMismatches(c) ==
              THEN {[id |-> c.id, name |-> c.name, clause |-> "GeneratorRaises", w |-> <<>>,
                     want |-> [exc |-> ""], got |-> [exc |-> c.gen_exc], allprod |-> ap]} ELSE {})
             \cup
-            (IF ConflictFreeCase(c) /\ c.namb >= 0 /\ Ambiguous(c.g, c.namb)
-             THEN {[id |-> c.id, name |-> c.name, clause |-> "AmbiguousImpliesConflicts", w |-> <<>>,
-                    want |-> [conflicts |-> "some"], got |-> [conflicts |-> "none"], allprod |-> ap]} ELSE {})
-            \cup
             (IF c.expect = "conflict-free" /\ ~ConflictFreeCase(c)
              THEN {[id |-> c.id, name |-> c.name, clause |-> "ExpectedConflictFree", w |-> <<>>,
                     want |-> [conflicts |-> "none"], got |-> [conflicts |-> "some"], allprod |-> ap]} ELSE {})
@@ -98,30 +115,29 @@ Report(ms) ==
     {[count |-> Cardinality({m \in ms : m.clause = cl}), ex |-> CHOOSE m \in ms : m.clause = cl]
         : cl \in {m.clause : m \in ms}}
 
-ZeroStats == [cases |-> 0, conflictFree |-> 0, runs |-> 0, accepted |-> 0, mismatches |-> 0]
+(***************************************************************************)
+(* The walk over the cases.  The state is just the case number; the work   *)
+(* is done by the state predicate Checked, which is evaluated once per     *)
+(* state as an INVARIANT.  (TLC caches LET-bound values when it evaluates  *)
+(* a state predicate but not while it enumerates the successors of an      *)
+(* action, which makes the same recognizer run two orders of magnitude     *)
+(* faster here than inside Next.)  Checked prints one JSON line per        *)
+(* violated (case, clause) and one summary line per case, and is TRUE: the *)
+(* harness reads the verdict from those lines, so that one run names every *)
+(* failing case.                                                           *)
+(***************************************************************************)
+Init == i = 1
+Next == i < Len(Cases) /\ i' = i + 1
 
-Init == i = 1 /\ stats = ZeroStats
-
-CheckCase ==
-    /\ i <= Len(Cases)
-    /\ LET c  == Cases[i]
-           ms == CaseMismatches(c)
-       IN  /\ \A m \in Report(ms) : PrintT(ToJson(m))
-           /\ stats' = [cases        |-> stats.cases + 1,
-                        conflictFree |-> stats.conflictFree + (IF ConflictFreeCase(c) THEN 1 ELSE 0),
-                        runs         |-> stats.runs + Len(c.runs),
-                        accepted     |-> stats.accepted + Cardinality({k \in DOMAIN c.runs : c.runs[k].ok}),
-                        mismatches   |-> stats.mismatches + Cardinality(ms)]
-    /\ i' = i + 1
-
-Finish ==
-    /\ i = Len(Cases) + 1
-    /\ PrintT(ToJson([summary |-> stats]))
-    /\ i' = i + 1
-    /\ UNCHANGED stats
-
-Next == CheckCase \/ Finish
-
-\* every case was consumed (the harness also checks the summary line)
-AllConsumed == i <= Len(Cases) + 2
+Checked ==
+    IF i > Len(Cases) THEN TRUE
+    ELSE LET c  == Cases[i]
+             ms == CaseMismatches(c)
+         IN  /\ \A m \in Report(ms) : PrintT(ToJson(m))
+             /\ PrintT(ToJson([summary |->
+                    [cases        |-> 1,
+                     conflictFree |-> IF ConflictFreeCase(c) THEN 1 ELSE 0,
+                     runs         |-> Len(c.runs),
+                     accepted     |-> Cardinality({k \in DOMAIN c.runs : c.runs[k].ok}),
+                     mismatches   |-> Cardinality(ms)]]))
 =============================================================================
